@@ -450,6 +450,22 @@ func (w *naWorld) clientStream(sess *Session, cs *naConnState) {
 	}
 }
 
+// naLostTags: wrong data on a connection whose own session is being torn down is finding F-TEARDOWN (the event loop
+// recycles recvBuf under the reader); on a healthy session it is not.
+func naLostTags(c net.Conn) map[string]string {
+	sw, ok := c.(*streamWrapper)
+	if !ok {
+		return nil
+	}
+	for i := 0; i < 100; i++ {
+		if sw.stream.session.shutdown == 1 {
+			return map[string]string{"reader_session_lost": "yes"}
+		}
+		simrt.Sleep(time.Millisecond)
+	}
+	return nil
+}
+
 func (p *naStream) totalBytes() int {
 	t := 0
 	for _, s := range p.Writes {
@@ -525,7 +541,7 @@ func (w *naWorld) serveConn(c net.Conn) {
 		}
 		for i := 0; i < n; i++ {
 			if buf[i] != naByte(cs.key, cs.received+i) {
-				simrt.Fail("C19.wrong_bytes", "stream %d: byte %d read by the server is not what the client wrote", cs.key, cs.received+i)
+				simrt.FailTagged("C19.wrong_bytes", naLostTags(c), "stream %d: byte %d read by the server is not what the client wrote", cs.key, cs.received+i)
 				return
 			}
 		}
